@@ -17,6 +17,7 @@ import JsonV.Lemmas.EncRender
 import JsonV.Lemmas.EncIff
 import JsonV.Lemmas.EncValue
 import JsonV.Lemmas.EncRaw
+import JsonV.Lemmas.EncOps
 import JsonV.Spec.Names
 import JsonV.Model.Validate
 import JsonV.Gen.Straight
@@ -178,7 +179,7 @@ example : ∃ m, smRun 10000 Machine.init [.beginArr, .num] = .ok m ∧
 
 section Encoder
 open JsonV.Model.Encoder JsonV.Spec.Render JsonV.Spec.Names JsonV.Lemmas.EncNoop JsonV.Lemmas.EncRender
-open JsonV.Lemmas.EncIff JsonV.Lemmas.EncValue JsonV.Lemmas.EncRaw
+open JsonV.Lemmas.EncIff JsonV.Lemmas.EncValue JsonV.Lemmas.EncRaw JsonV.Lemmas.EncOps
 
 /-- A rejected `WriteToken` leaves the whole modelled state — output, machine (offsets, depth, indices),
 namespaces, options — exactly as it was. -/
@@ -303,7 +304,7 @@ theorem out_render_value (o : Opts) (ts : List Tok) (e e' : Enc) (v : Bytes) (hl
     (h : runToks (Encoder.new o) ts = some e) (hw : writeValue e v = (e', none)) :
     e'.out = render o (ts ++ valueToks o v) := by
   obtain ⟨hI, hrun⟩ := runToks_inv o ts (encInv_new o) (by omega) h
-  obtain ⟨toks, rest, ht, hout⟩ := writeValue_render hI (by omega) v hw
+  obtain ⟨toks, rest, _, _, ht, hout, _, _⟩ := writeValue_inv hI (by omega) v hw
   have hvt : valueToks o v = toks := by simp [valueToks, ht]
   rw [hvt, hout, (out_render o ts e (by omega) h).1, render, render, renderFrom_append o ts toks _ _ hrun]
 
@@ -316,6 +317,73 @@ example :
     ((runToks (Encoder.new o) [.beginArr, .null]).map fun e => (writeValue e v).1.out) =
       some "[\n\tnull,\n\t{\n\t\t\"a\": [\n\t\t\t1,\n\t\t\ttrue\n\t\t]\n\t}".toUTF8.toList := by
   decide +kernel
+
+/-! ### Histories of WriteToken and WriteValue calls in any order (the full statement of C06)
+
+`histToks o cs` is the token history of a script `cs` of calls: a `WriteToken t` contributes `t`, a
+`WriteValue v` contributes `valueToks o v`.  `runOps e cs = some e'` says that every call of `cs` was
+accepted (rejected calls may be deleted first: `after_reject`). -/
+
+/-- **Output = rendering of the accepted tokens**, for every accepted script of tokens and raw values:
+the history is a viable prefix of a JSON stream and the bytes produced are its PDA-derived rendering
+under the options (so whenever the depth is back at 0 the output is exactly the accepted top-level
+values, newline-terminated). -/
+theorem out_render_hist (o : Opts) (cs : List Call) (e : Enc) (hlen : 2 * cs.length < 2^61)
+    (h : runOps (Encoder.new o) cs = some e) :
+    e.out = render o (histToks o cs) ∧ Viable o.maxDepth ((histToks o cs).map kindOf) ∧
+      e.m.depth = (track o (PDA.init, []) (histToks o cs)).1.length := by
+  obtain ⟨fs, ns, hI, hrun, htrack, hout⟩ := runOps_new o cs e hlen h
+  refine ⟨hout, by simp [Viable, hrun], ?_⟩
+  rw [htrack, depth_abs, hI.abs_eq]
+
+/-- **WriteToken succeeds iff the grammar allows it**, after any accepted script of tokens and raw values. -/
+theorem wt_ok_iff_hist (o : Opts) (cs : List Call) (e : Enc) (t : Tok) (hlen : 2 * cs.length + 1 < 2^61)
+    (h : runOps (Encoder.new o) cs = some e) :
+    (writeToken e t).2 = none ↔
+      (Viable o.maxDepth ((histToks o cs ++ [t]).map kindOf) ∧ badUTF8 o t = false ∧
+        (o.allowDup = false → FreshName o (histToks o cs) t)) :=
+  writeToken_ops_iff o cs e t hlen h
+
+/-- **WriteValue succeeds iff the text is a value the validator accepts and is acceptable here**, after any
+accepted script of tokens and raw values. -/
+theorem wv_ok_iff_hist (o : Opts) (cs : List Call) (e : Enc) (v : Bytes) (hlen : 2 * cs.length + 2 < 2^61)
+    (h : runOps (Encoder.new o) cs = some e) :
+    (writeValue e v).2 = none ↔
+      ∃ out rest,
+        reformatValue o (2 * v.length + 2) (beforeToken e (valueKind v)) (skipWS v) e.m.depth = .ok (out, rest) ∧
+        skipWS rest = [] ∧
+        Viable o.maxDepth (((histToks o cs).map kindOf) ++ [firstKind (valueKind v)]) ∧
+        (valueKind v = 0x22 → o.allowDup = false → isNamePos (track o (PDA.init, []) (histToks o cs)).1 = true →
+          unquote (out.drop (beforeToken e (valueKind v)).length) ∉ innermostNames o (histToks o cs)) :=
+  writeValue_ops_iff o cs e v hlen h
+
+/-- **A raw value acts like its tokens.**  From any state reached by an accepted script, an accepted
+`WriteValue v` and an accepted token-by-token writing of `valueToks o v` lead to the same output, the
+same abstract machine (frames: kinds and element counts of all open containers, hence depth and
+indices) and the same tracked names; and the tokens of `v` are viable after the history. -/
+theorem wv_as_tokens (o : Opts) (cs : List Call) (e e1 e2 : Enc) (v : Bytes)
+    (hlen : 2 * cs.length + (valueToks o v).length + 2 < 2^61)
+    (h : runOps (Encoder.new o) cs = some e) (h1 : writeValue e v = (e1, none))
+    (h2 : runToks e (valueToks o v) = some e2) :
+    e1.out = e2.out ∧ abs e1.m = abs e2.m ∧ (o.allowDup = false → e1.ns = e2.ns) ∧
+      Viable o.maxDepth ((histToks o cs ++ valueToks o v).map kindOf) := by
+  obtain ⟨fs, ns, hI, hrun, htrack, hout⟩ := runOps_new o cs e (by omega) h
+  obtain ⟨toks, rest, fs', ns', ht, hout1, htr, hI1⟩ := writeValue_inv hI (by omega) v h1
+  have hvt : valueToks o v = toks := by simp [valueToks, ht]
+  rw [hvt] at h2 hlen ⊢
+  obtain ⟨hr1, hr2⟩ := trackRun_run _ htr
+  obtain ⟨hI2, _⟩ := runToks_inv o toks hI (by omega) h2
+  rw [hr2] at hI2
+  have hout2 := (out_render_from toks (b := 2 * cs.length) (e := e) (e' := e2) (by rw [hI.opts]; exact hI.inv)
+    (by rw [hI.abs_eq]; exact hI.bottom) (by omega) h2).1
+  rw [hI.opts, hI.abs_eq] at hout2
+  refine ⟨by rw [hout1, hout2], by rw [hI1.abs_eq, hI2.abs_eq], fun hd => ?_, ?_⟩
+  · rw [(hI1.names hd).1, (hI2.names hd).1]
+  · simp only [Viable, List.map_append]
+    have : PDA.run o.maxDepth PDA.init (List.map kindOf (histToks o cs) ++ List.map kindOf toks) = some fs' := by
+      have := run_append_some hrun hr1
+      exact this
+    simp [this]
 
 /-- FULL STATEMENT, not proved (validated by the `enc valid` cross-check of the harness between the two
 Lean models and by predicate (ii) against an independent Go parser): the encoder's validator
